@@ -1,5 +1,10 @@
 import Blackbird.Props.C10
+import Blackbird.Props.C10Lex
 #print axioms Blackbird.C10_listener_total
 #print axioms Blackbird.C10_invariant_needed
 #print axioms Blackbird.C10_column_one_based
 #print axioms Blackbird.C10_printed_scripts_pass
+#print axioms Blackbird.C10_lexer_never_stuck
+#print axioms Blackbird.C10_lexer_match_bounds
+#print axioms Blackbird.C10_lexer_consumes_input
+#print axioms Blackbird.C10_eof_position_is_end_of_text
